@@ -451,6 +451,13 @@ def _payload(m, lv, bi, b, payload, nprng):
         base = nprng.choice([298.0, 1e-12, -3.5, 1.0e5], size=shp[-1])
         arr = base * (1.0 + 1e-7 * (nprng.random(shp) - 0.5))
         return arr
+    if payload == "trace":
+        # trace quantities: every value of a field within 1e-8 (absolute) of every other one, no two equal - an absolute
+        # tolerance of 1e-8 (np.isclose / np.allclose defaults) calls such a field uniform, or zero
+        arr = np.empty(shp)
+        for f in range(shp[-1]):
+            arr[..., f] = (1.0 + 8.0 * nprng.random(b.shape)) * 10.0 ** (-11 - (f % 3) * 4) * (-1.0 if f % 4 == 3 else 1.0)
+        return arr
     if payload == "positive":
         arr = (nprng.random(shp) + 0.25) * 10.0 ** int(nprng.integers(-3, 4))     # several decades across boxes
         for f, n in enumerate(m.names):
